@@ -214,6 +214,46 @@ def edit_kexmsg(payload: bytes, e: Dict[str, Any]) -> Tuple[bytes, str]:
     return payload[:1] + body, 'f%d:%s' % (k, what)
 
 
+PLUS_P = 1000
+
+
+def group_prime(kex: str) -> Optional[int]:
+    """The prime of a fixed finite-field group (RFC 2409 / 3526), taken as
+    data from the table of the code under test"""
+
+    import re
+    import asyncssh.kex_dh as kd
+    m = re.search(r'group(\d+)-', kex)
+    return getattr(kd, '_group%s_p' % m.group(1), None) if m else None
+
+
+def edit_plus_p(payload: bytes, e: Dict[str, Any],
+                gex_p: Optional[int]) -> Tuple[bytes, str]:
+    """The ephemeral public value of a finite-field exchange replaced by
+    another integer of the same residue class (v + p): both ends would
+    compute the same shared secret, yet the value that crossed the wire is
+    not the one the sender put into its exchange hash"""
+
+    prime = gex_p if 'group-exchange' in e['_kex'] else group_prime(e['_kex'])
+    fields = split_fields(payload[1:])
+    # e is the only field of an INIT message, f the second of a REPLY
+    k = {30: 0, 32: 0, 31: 1, 33: 1}.get(payload[0])
+
+    if prime is None or k is None or k >= len(fields) or \
+            fields[k][0] != 'str':
+        raise WireError('no finite-field value here')
+
+    v = int.from_bytes(fields[k][1], 'big')
+
+    if not 0 < v < prime:
+        raise WireError('not a group element')
+
+    v += prime * (1 + e['bit'] % 2)
+    fields[k] = ('str', v.to_bytes(v.bit_length() // 8 + 1, 'big'))
+    body = b''.join(string(c) if kd_ == 'str' else c for kd_, c in fields)
+    return payload[:1] + body, 'f%d:mpint:plus-p' % k
+
+
 def edit_version(line: bytes, e: Dict[str, Any]) -> Tuple[bytes, str]:
     body = line.rstrip(b'\r\n')
     op = e['op'] % 7
@@ -254,6 +294,7 @@ class Editor:
         self.clear = {'c': True, 's': True}
         self.applied: Optional[str] = None
         self.changed = False
+        self.gex_p: Optional[int] = None
 
     def __call__(self, side: str, idx: int, rec: bytes) -> List[bytes]:
         e = self.e
@@ -280,6 +321,14 @@ class Editor:
             self.clear[side] = False
             return [rec]
 
+        if t == 31 and side == 's' and 'group-exchange' in e.get('_kex', ''):
+            # KEX_DH_GEX_GROUP: the prime the server chose
+            try:
+                self.gex_p = int.from_bytes(
+                    split_fields(payload[1:])[0][1], 'big')
+            except (WireError, IndexError):
+                pass
+
         if side != self.side or self.applied:
             return [rec]
 
@@ -291,7 +340,10 @@ class Editor:
                 self.kexmsgs += 1
                 if n != e['index']:
                     return [rec]
-                new, self.applied = edit_kexmsg(payload, e)
+                if e['op'] == PLUS_P:
+                    new, self.applied = edit_plus_p(payload, e, self.gex_p)
+                else:
+                    new, self.applied = edit_kexmsg(payload, e)
             else:
                 return [rec]
         except WireError:
@@ -342,7 +394,7 @@ def run_edit(case) -> CaseResult:
                 {'kex_algs': [kex], 'client_factory': lambda: LogClient(log)},
                 wait='kex' if entry == 'hostkey' else 'auth')
     h = pair.h
-    editor = Editor(e) if e is not None else None
+    editor = Editor(dict(e, _kex=kex)) if e is not None else None
 
     if editor:
         h.wire.tamper = editor
@@ -446,6 +498,8 @@ def run_edit(case) -> CaseResult:
                              editor.applied.split(':')[0]),
                   fam + '/' + e['target'], 'entry:' + entry,
                   'entry:%s/%s' % (entry, fam)]
+        if 'plus-p' in editor.applied:
+            labels.append('edit:plus-p:%s:%s' % (fam, e['dir']))
         if 'reencode-key' in editor.applied:
             labels.append('edit:reencode-key:' + fam)
             # (which blob of the message: for RFC 4432, f0 is the host key
@@ -504,6 +558,24 @@ def reencode_cases(tier: str):
                                'edit': {'dir': 'sc', 'target': 'kexmsg',
                                         'index': index, 'field': field,
                                         'op': 6, 'pos': 0, 'bit': 0}}
+
+
+def plus_p_cases(tier: str):
+    """e + p / f + p in every finite-field method (message x direction)"""
+
+    for kex in kex_methods():
+        if kex_family(kex) not in ('dh-group', 'gex'):
+            continue
+
+        for d in ('cs', 'sc'):
+            for index in range(2):
+                for bit in (0, 1):
+                    for entry in ('connect', 'hostkey'):
+                        yield {'kex': kex, 'hostkey': 'default',
+                               'entry': entry,
+                               'edit': {'dir': d, 'target': 'kexmsg',
+                                        'index': index, 'field': 0,
+                                        'op': PLUS_P, 'pos': 0, 'bit': bit}}
 
 
 def control_cases(tier: str):
@@ -926,6 +998,11 @@ FAMILIES = [
                              'edit:reencode-key:dh-group',
                              'edit:reencode-key:curve25519',
                              'edit:reencode-key:gex']},
+           case_timeout=120),
+    Family('plus-p', run_edit, enumerate=plus_p_cases, exhaustive=True,
+           required={'all': ['edit:plus-p:dh-group:cs',
+                             'edit:plus-p:dh-group:sc',
+                             'edit:plus-p:gex:cs', 'edit:plus-p:gex:sc']},
            case_timeout=120),
     Family('hostkey', run_hostkey, enumerate=hostkey_cases, exhaustive=True,
            required={'all': ['first-choice', 'later-choice', 'no-common',
